@@ -2,6 +2,7 @@ package objecth
 
 import (
 	"fmt"
+	"math/rand"
 	"os"
 	"path/filepath"
 	"sort"
@@ -146,12 +147,48 @@ func produceEngine() ndn.Engine {
 //   RET <name> | RET err
 //   PKT/MET ... (sorted by encoded name)
 //   END
+// failingStore fails the k-th Put ("disk full"): Produce must report the error; the object must not become
+// consumable by name (the metadata packet is written last).
+type failingStore struct {
+	ndn.Store
+	left int
+}
+
+func (f *failingStore) Put(name enc.Name, version uint64, wire []byte) error {
+	if f.left == 0 {
+		return fmt.Errorf("injected: no space left on device")
+	}
+	f.left--
+	return f.Store.Put(name, version, wire)
+}
+
+func runProduceFailCase(o *out, eng ndn.Engine, r *rand.Rand) {
+	mem := object.NewMemoryStore()
+	nseg := 2 + r.Intn(3)
+	fs := &failingStore{Store: mem, left: r.Intn(nseg + 1)} // fails on a segment or on the metadata packet
+	cli := object.NewClient(eng, fs)
+	name := genName(r)
+	v := uint64(5)
+	_, err := cli.Produce(object.ProduceArgs{Name: name, Content: enc.Wire{genContent(r, (nseg-1)*segSize+1)}, Version: &v})
+	meta, _ := mem.Get(append(append(enc.Name{}, name...), enc.NewStringComponent(enc.TypeKeywordNameComponent, "metadata")), true)
+	verdict := "ok"
+	if err == nil {
+		verdict = "bad:no-error-returned"
+	} else if meta != nil {
+		verdict = "bad:metadata-published-although-produce-failed"
+	}
+	o.pf("PFAIL %s failing-put=%d segments=%d\n", verdict, fs.left, nseg)
+}
+
 func TestProduceTrace(t *testing.T) {
 	r := newRand()
 	n := envInt("VERIF_N", 40)
 	o := newOut()
 	defer o.close()
 	eng := produceEngine()
+	for i := 0; i < 4; i++ {
+		runProduceFailCase(o, eng, r)
+	}
 	for i := 0; i < n; i++ {
 		kind := "m"
 		if r.Intn(3) == 0 {
